@@ -16,6 +16,8 @@ from typing import Any
 KFILES = ("subject/subject.py", "subject/behaviorsubject.py", "subject/replaysubject.py", "subject/asyncsubject.py",
           "subject/innersubscription.py", "observer/scheduledobserver.py")
 
+FREE_FILES = tuple("reactivex/" + f for f in KFILES) + ("reactivex/observer/observer.py",)
+
 HAND = [
     {"n": 2, "term": "C", "subs": [{"unsub": False}], "pre": 0},
     {"n": 2, "term": "E", "subs": [{"unsub": False}], "pre": 1},
@@ -55,8 +57,8 @@ def scenario_for(pid: str, kind: str) -> Any:
                 recv[name] = []
 
             def _got(self, kind_: str, v: Any) -> None:
-                c.log("recv", self.name, kind_, v)
-                recv[self.name].append((kind_, v, len(c.events)))
+                i = c.log("recv", self.name, kind_, v)
+                recv[self.name].append((kind_, v, i + 1))
                 c.yp("in-observer")
 
             def on_next(self, v: Any) -> None:
@@ -69,8 +71,7 @@ def scenario_for(pid: str, kind: str) -> Any:
                 self._got("C", None)
 
         def mark(name: str) -> None:
-            c.log(name)
-            marks[name] = len(c.events)
+            marks[name] = c.log(name) + 1
 
         pre = []
         for i in range(P["pre"]):
@@ -105,7 +106,7 @@ def scenario_for(pid: str, kind: str) -> Any:
                 d.dispose()
                 mark("unsub_ret:" + o.name)
 
-        ts = [D.VThread(target=emitter, name="E")] + [D.VThread(target=subscriber, args=(j, sp), name="S") for j, sp in enumerate(P["subs"])]
+        ts = [c.Thread(target=emitter, name="E")] + [c.Thread(target=subscriber, args=(j, sp), name="S") for j, sp in enumerate(P["subs"])]
         for t in ts:
             t.start()
         for t in ts:
@@ -215,12 +216,23 @@ def conc_units(tier: str, seed: int) -> list[dict]:
     nprog, per = (8, 4) if q else (96, 8)
     for lo in range(0, nprog, per):
         us.append({"mode": "conc", "dsched": True, "what": "random", "progs": [lo, lo + per], "runs": 30 if q else 250, "seed": seed})
+    # free-running tier: the same scenarios with real threads (interleavings inside one source line)
+    for lo in range(0, 8 if q else 64, 4):
+        us.append({"mode": "conc", "what": "free", "progs": [lo, lo + 4], "runs": 150 if q else 1500, "seed": seed})
     return us
 
 
 def run_conc_unit(pid: str, kind: str, unit: dict, res: Any) -> None:
-    from .. import dcheck, dsched as D
     from ..common import case_rng
+    if unit["what"] == "free":
+        from ..freerun import explore_free
+        fn = scenario_for(pid, kind)
+        for hi in range(len(HAND)):
+            explore_free(res, pid, "free-hand%d" % hi, fn, dict(HAND[hi], buffer=[None, 1, 2, 1][hi % 4]), seed=unit["seed"], runs=unit["runs"] // 4, files=FREE_FILES)
+        for pi in range(*unit["progs"]):
+            explore_free(res, pid, "free-gen%d" % pi, fn, gen_program(case_rng(unit["seed"], pid, "conc", pi)), seed=unit["seed"], runs=unit["runs"], files=FREE_FILES)
+        return
+    from .. import dcheck, dsched as D
     D.install(D.repo_file(*KFILES))
     if not dcheck.check_install(res):
         return
@@ -240,6 +252,11 @@ def run_conc_unit(pid: str, kind: str, unit: dict, res: Any) -> None:
 
 
 def replay_conc(pid: str, kind: str, rep: dict, res: Any) -> None:
+    if rep.get("free"):
+        # not replayable: the scenario is run again as often as the run that found it
+        from ..freerun import explore_free
+        explore_free(res, pid, rep["scenario"], scenario_for(pid, kind), rep["params"], seed=rep.get("seed", 0), runs=rep.get("runs", 1000))
+        return
     from .. import dcheck, dsched as D
     D.install(D.repo_file(*KFILES))
     dcheck.replay(res, pid, scenario_for(pid, kind), rep)
